@@ -129,6 +129,10 @@ int mexCallMATLAB(int nlhs, mxArray* plhs[], int nrhs, mxArray* prhs[], const ch
   if (!g_hook) throw MexError("mock:mexCallMATLAB", std::string("no MATLAB side attached for call to ") + name);
   return g_hook(nlhs, plhs, nrhs, prhs, name);
 }
+void mexMakeArrayPersistent(mxArray*) {}
+void mexMakeMemoryPersistent(void*) {}
+void mexLock(void) {}
+void mexUnlock(void) {}
 int mexAtExit(void (*fn)(void)) { for (auto f : g_atexit) if (f == fn) return 0; g_atexit.push_back(fn); return 0; }
 }  // extern "C"
 
